@@ -1,57 +1,139 @@
 """C20 — column-store sparse and skip indexes never prune a block with a match.
 Mode A: TLC exhaustively checks specs/SparseIndex.tla (the key-condition algorithm over sorted key records,
-        fragments, RPN atoms, mask algebra, key-prefix hyper-rectangles, binary / exclusion search) for
-        NeverSkipsMatch and MayCoversMatch within the cfg bounds.
-Mode B: TLC-generated cases (every path of a small BFS config + seeded simulation up to 3 key columns, 8 rows,
-        condition trees of depth 3 with IN / string operators / non-key atoms / time bounds) are replayed into the
-        real PKIndexWriterImpl.Build -> NewKeyCondition -> PKIndexReaderImpl.Scan with several column types per
-        case and every reader setting; the skip-index readers (set, min-max, bloom filter) are driven on the same
-        cases. Verdict: a fragment with a brute-force matching row that the real code does not select."""
+        fragments, RPN atoms, mask algebra, key-prefix hyper-rectangles evaluated IN PLACE on one shared slice of
+        ranges, binary / exclusion search) for NeverSkipsMatch and MayCoversMatch within the cfg bounds.
+Mode B: TLC-generated cases are replayed into the real PKIndexWriterImpl.Build -> NewKeyCondition ->
+        PKIndexReaderImpl.Scan with several column types per case and every reader setting; the skip-index readers
+        (set, min-max, bloom filter) are driven on the same cases. Three generators:
+          * every path of a small BFS config;
+          * seeded simulation (up to 3 key columns, 8 rows, condition trees of depth 3 with IN / string operators /
+            non-key atoms / time bounds, biased toward 3 key columns and chains reaching the last key column);
+          * DIRECTED cases: for every unsound deviation D of the specification (mutation seeds = the slips the
+            transcription can express) TLC enumerates small universes and exports the cases that DISTINGUISH D from
+            the design (a fragment with a matching row that the design selects and D does not). Real code that has
+            slipped the way D describes skips a fragment on every one of them; a deviation without distinguishing
+            cases is an infrastructure failure (exit 2).
+        Verdict: a fragment with a brute-force matching row that the real code does not select."""
 import concurrent.futures as cf
-import json, os, time
+import json, os, random, time
 import vlib
 
 PROP = "C20"
-MUTATION_SEEDS = ["le_as_lt", "or_as_and", "last_fragment_off_by_one", "null_as_minus_infinity"]
+# the unsound slips of SparseIndex.tla (SparseIndexMC!UnsoundDevs): each must have distinguishing cases
+UNSOUND_DEVS = ["le_as_lt", "ge_as_gt", "or_as_and", "last_fragment_off_by_one", "null_as_minus_infinity",
+                "stale_range_between_rectangles", "left_point_stale", "right_point_stale", "last_column_open",
+                "right_bound_overwrites", "excl_drops_leftmost", "bin_end_off_by_one"]
+PRECISION_DEVS = ["lt_as_le", "and_as_or", "binary_search_always"]
+MUTATION_SEEDS = [d for d in UNSOUND_DEVS if d != "right_bound_overwrites"]
 AS_IMPLEMENTED = ["right_bound_overwrites", "matchphrase_as_equality", "unknown_op_drops_element", "in_is_error"]
+# deviations whose counterexample needs three key columns / the chain conditions of the tiny-domain configuration
+THREE_KEY_DEVS = ("stale_range_between_rectangles", "left_point_stale", "right_point_stale")
+
+EXH = {"quick": [("SparseIndex.exh.quick.cfg", 16), ("SparseIndex.exh.quick3c.cfg", 8), ("SparseIndex.exh.quick3.cfg", 4)],
+       "thorough": [("SparseIndex.exh.thorough.cfg", 16), ("SparseIndex.exh.thorough3c.cfg", 16), ("SparseIndex.exh.thorough3b.cfg", 8),
+                    ("SparseIndex.exh.thorough.ia.cfg", 8), ("SparseIndex.exh.thorough3.cfg", 8)]}
+DIRECTED = {"quick": [("SparseIndex.dir.q1.cfg", 8), ("SparseIndex.dir.q2.cfg", 8), ("SparseIndex.dir.q3.cfg", 8)],
+            "thorough": [("SparseIndex.dir.t3.cfg", 16), ("SparseIndex.dir.t2.cfg", 8), ("SparseIndex.dir.t1.cfg", 8),
+                         ("SparseIndex.dir.q3.cfg", 8)]}
+PER_DEV = {"quick": 300, "thorough": 1500}     # directed cases replayed per deviation (all of them when fewer exist)
+MIN_PER_DEV = 20                               # fewer distinguishing cases than this for a deviation: exit 2
 
 
-def _exh(cfg, stats, coverage=False):
-    r = vlib.run_tlc("SparseIndexMC", cfg, timeout=3000, coverage=coverage)
+def _tlc_env():
+    # several JVMs run side by side: bound each heap (the default is a quarter of the machine's memory)
+    if "-Xmx" not in os.environ.get("JAVA_TOOL_OPTIONS", ""):
+        os.environ["JAVA_TOOL_OPTIONS"] = (os.environ.get("JAVA_TOOL_OPTIONS", "") + " -Xmx4g").strip()
+
+
+def _exh(cfg, workers):
+    r = vlib.run_tlc("SparseIndexMC", cfg, workers=workers, timeout=3000)
     vlib.tlc_must_pass(r, cfg)
-    stats.append({"cfg": cfg, **{k: r[k] for k in ("generated", "distinct", "depth")}, "wall_s": round(r["wall_s"], 1)})
+    return ("exh", cfg, r)
 
 
 def _sim(n, seed):
     r = vlib.run_tlc("SparseIndexMC", "SparseIndex.sim.cfg", simulate=n, depth=4, seed=seed, timeout=3000)
     vlib.tlc_must_pass(r, f"SparseIndex.sim.cfg seed={seed}")
-    return r
+    return ("sim", seed, r)
+
+
+def _bfs():
+    r = vlib.run_tlc("SparseIndexMC", "SparseIndex.bfs.export.cfg", workers=4, timeout=900)
+    vlib.tlc_must_pass(r, "SparseIndex.bfs.export.cfg")
+    return ("bfs", None, r)
+
+
+def _directed(cfg, workers, seed):
+    r = vlib.run_tlc("SparseIndexMC", cfg, workers=workers, timeout=3000, extra=["-seed", str(seed)])
+    vlib.tlc_must_pass(r, cfg)
+    return ("dir", cfg, r)
+
+
+def _key(h):
+    return json.dumps([h[0]["args"], h[1]["args"]], sort_keys=True)
 
 
 def gen_cases(tier, seed):
-    stats = {"exh": []}
-    # Mode A: exhaustive design check
-    cfgs = ["SparseIndex.exh.quick.cfg", "SparseIndex.exh.quick3.cfg"] if tier == "quick" else \
-           ["SparseIndex.exh.thorough.cfg", "SparseIndex.exh.thorough.ia.cfg", "SparseIndex.exh.thorough3.cfg", "SparseIndex.exh.thorough3b.cfg"]
-    for c in cfgs:
-        _exh(c, stats["exh"])
-    # Mode B generators
-    cases = []
-    r2 = vlib.run_tlc("SparseIndexMC", "SparseIndex.bfs.export.cfg", workers=4, timeout=900)
-    vlib.tlc_must_pass(r2, "SparseIndex.bfs.export.cfg")
-    cases += r2["traces"]
-    stats["bfs_export"] = {"generated": r2["generated"], "distinct": r2["distinct"], "traces": len(r2["traces"])}
-    if tier == "quick":
-        runs = [(2500, seed)]
-    else:
-        runs = [(4000, seed * 1000 + i) for i in range(8)]
-    gen = 0
-    with cf.ThreadPoolExecutor(len(runs)) as ex:
-        for r3 in ex.map(lambda a: _sim(*a), runs):
-            cases += r3["traces"]
-            gen += r3["generated"]
-    stats["sim"] = {"generated": gen, "traces": sum(n for n, _ in runs), "runs": len(runs)}
-    return cases, stats
+    """-> (behaviours, directed: list of (behaviour, [deviations]), stats)"""
+    _tlc_env()
+    stats = {"exh": [], "directed_runs": []}
+    jobs = []
+    # long jobs first
+    ex0, exrest = EXH[tier][0], EXH[tier][1:]
+    jobs.append(lambda: _exh(*ex0))
+    for cfg, w in DIRECTED[tier]:
+        jobs.append(lambda cfg=cfg, w=w: _directed(cfg, w, seed))
+    for cfg, w in exrest:
+        jobs.append(lambda cfg=cfg, w=w: _exh(cfg, w))
+    jobs.append(_bfs)
+    runs = [(2500, seed)] if tier == "quick" else [(4000, seed * 1000 + i) for i in range(8)]
+    for n, s in runs:
+        jobs.append(lambda n=n, s=s: _sim(n, s))
+    behaviours, pool = [], []
+    simgen = 0
+    with cf.ThreadPoolExecutor(4 if tier == "quick" else 5) as ex:
+        for kind, what, r in ex.map(lambda j: j(), jobs):
+            if kind == "exh":
+                stats["exh"].append({"cfg": what, **{k: r[k] for k in ("generated", "distinct", "depth")}, "wall_s": round(r["wall_s"], 1)})
+            elif kind == "bfs":
+                behaviours += r["traces"]
+                stats["bfs_export"] = {"generated": r["generated"], "distinct": r["distinct"], "traces": len(r["traces"])}
+            elif kind == "sim":
+                behaviours += r["traces"]
+                simgen += r["generated"]
+            else:
+                pool += r["traces"]
+                stats["directed_runs"].append({"cfg": what, "generated": r["generated"], "distinct": r["distinct"],
+                                               "distinguishing_cases_exported": len(r["traces"]), "wall_s": round(r["wall_s"], 1)})
+    stats["sim"] = {"generated": simgen, "traces": sum(n for n, _ in runs), "runs": len(runs)}
+    # --- directed cases: per deviation, a seeded sample of what TLC exported
+    by_dev = {d: [] for d in UNSOUND_DEVS}
+    seen = set()
+    uniq = []
+    for h in pool:
+        kx = _key(h)
+        if kx in seen:
+            continue
+        seen.add(kx)
+        uniq.append(h)
+        for d in h[2]["args"]["dist"]:
+            by_dev.setdefault(d, []).append(len(uniq) - 1)
+    rng = random.Random(seed)
+    chosen = {}
+    per_dev = {}
+    for d in sorted(by_dev):
+        idx = by_dev[d]
+        pick = idx if len(idx) <= PER_DEV[tier] else rng.sample(idx, PER_DEV[tier])
+        for i in pick:
+            chosen.setdefault(i, []).append(d)
+        per_dev[d] = {"exported": len(idx), "picked": len(pick)}
+    directed = [(uniq[i], sorted(set(uniq[i][2]["args"]["dist"]))) for i in sorted(chosen)]
+    stats["directed"] = per_dev
+    missing = [d for d in UNSOUND_DEVS if per_dev.get(d, {}).get("exported", 0) < MIN_PER_DEV]
+    if missing:
+        raise vlib.Infra(f"no (or fewer than {MIN_PER_DEV}) distinguishing cases for the deviations {missing}: the directed universes "
+                         f"do not decide these slip classes (exported: { {d: per_dev.get(d, {}).get('exported', 0) for d in missing} })")
+    return behaviours, directed, stats
 
 
 def replay_cases(cases):
@@ -73,9 +155,12 @@ def _nontrivial(h):
 
 def run(tier, seed):
     t0 = time.time()
-    behaviours, stats = gen_cases(tier, seed)
+    behaviours, directed, stats = gen_cases(tier, seed)
+    t_gen = time.time() - t0
     nvar = 3 if tier == "quick" else 4
-    cases = [{"id": i, "seed": seed, "hist": h, "variants": nvar, "skip": True} for i, h in enumerate(behaviours)]
+    allb = behaviours + [h for h, _ in directed]
+    cases = [{"id": i, "seed": seed, "hist": h, "variants": nvar, "skip": True} for i, h in enumerate(allb)]
+    dist_of = {len(behaviours) + j: ds for j, (_, ds) in enumerate(directed)}
     results = replay_cases(cases)
     hang = [r for r in results if r.get("hang")]
     if hang:
@@ -100,24 +185,45 @@ def run(tier, seed):
     for kid in sorted(known_n):
         print(f"KNOWN-FINDING: property={PROP} {kid} re-observed in {known_cases[kid]} cases ({known_n[kid]} evaluations), e.g. {known_ex[kid][:420]}")
     byid = {c["id"]: c for c in cases}
+    # violations: the directed ones first (they name the slip class)
+    bad.sort(key=lambda r: (r["id"] not in dist_of, r["id"]))
     for r in bad[:5]:
         path = vlib.save_replay(PROP, {"case": byid[r["id"]], "result": {k: r.get(k) for k in ("id", "step", "action", "detail")}})
         print(f"VIOLATION property={PROP} replay={path}")
+        if r["id"] in dist_of:
+            vlib.log(f"(directed case: distinguishes the design from the deviations {dist_of[r['id']]} of SparseIndex.tla)")
         vlib.log(r["detail"][:3000])
+    # per deviation: what was exported, replayed, and how the real code behaved on it
+    per_dev = stats["directed"]
+    for d in per_dev:
+        per_dev[d].update({"replayed": 0, "real_scans": 0, "real_scans_equal_to_design": 0, "real_scans_unsound": 0, "cases_with_violation": 0})
+    for r in results:
+        for d in dist_of.get(r["id"], []):
+            e = per_dev[d]
+            e["replayed"] += 1
+            e["real_scans"] += r.get("scans", 0)
+            e["real_scans_equal_to_design"] += r.get("exact", 0)
+            e["real_scans_unsound"] += r.get("unsound", 0)
+            e["cases_with_violation"] += 0 if r["ok"] else 1
+    vlib.log("[C20] directed cases per deviation (exported by TLC / replayed into the real code / cases with a violation): " +
+             ", ".join(f"{d} {e['exported']}/{e['replayed']}/{e['cases_with_violation']}" for d, e in sorted(per_dev.items())))
     tot = lambda k: sum(r.get(k, 0) for r in results)
-    distinct = len({json.dumps([h[0]["args"], h[1]["args"]], sort_keys=True) for h in behaviours})
-    nontrivial = len({json.dumps([h[0]["args"], h[1]["args"]], sort_keys=True) for h in behaviours if _nontrivial(h)})
+    distinct = len({_key(h) for h in allb})
+    nontrivial = len({_key(h) for h in allb if _nontrivial(h)})
     cov = {
         "states": sum(e["distinct"] for e in stats["exh"]), "transitions": sum(e["generated"] for e in stats["exh"]),
         "traces_validated_against_impl": len(results),
-        "samples": [behaviours[0], behaviours[-1]] if behaviours else [],
+        "samples": [behaviours[0], behaviours[-1], directed[0][0]] if behaviours and directed else [],
         "exhaustive": True,
         "evaluations": tot("scans") + tot("skip_eval"), "distinct_nontrivial": nontrivial,
         "rule": "cases = (sorted key record, fragment size, column types, condition tree, time bounds) of SparseIndex.tla: all BFS paths of "
-                "the small export config + seeded simulation; evaluations = real Scan calls (case x column-type variant x reader "
-                "setting) + skip-index MayBeInFragment calls; distinct_nontrivial = distinct (record, condition) pairs in which "
-                "some row matches and the specification prunes at least one fragment",
+                "the small export config + seeded simulation + directed cases (per unsound deviation D of the specification, the cases "
+                "of small universes in which the design selects a fragment with a matching row and D does not); evaluations = real "
+                "Scan calls (case x column-type variant x reader setting) + skip-index MayBeInFragment calls; distinct_nontrivial = "
+                "distinct (record, condition) pairs in which some row matches and the specification prunes at least one fragment",
         "tlc": stats,
+        "directed_cases": len(directed),
+        "directed_per_deviation": per_dev,
         "distinct_cases": distinct,
         "variants": tot("variants"), "scans": tot("scans"), "scans_equal_to_spec": tot("exact"),
         "scans_sound_but_different_from_spec": tot("drift"),
@@ -125,6 +231,7 @@ def run(tier, seed):
         "scans_that_modified_the_index_record": tot("mutated"),
         "skip_index_evaluations": tot("skip_eval"), "skip_index_negative_answers": tot("skip_neg"),
         "known_finding_evaluations": known_n,
+        "wall_generation_s": round(t_gen, 1),
     }
     vlib.write_evidence(PROP, tier, seed, "model_checking", cov, time.time() - t0, len(bad), [
         "TLC bounds as in the cfg files named under coverage.tlc; key values 0..2 and null (= +infinity, sorted last)",
@@ -134,6 +241,8 @@ def run(tier, seed):
         "row filter's token finder, like/match true when the literal equals the value",
         "skip indexes: set and bloom-filter readers on what the real writers produce; the min-max reader (no production ReadFunc, "
         "writer writes nothing) is given the sorted first key column and is not driven with null bounds",
+        "directed cases decide the slip classes the specification can express (its Dev switches); a slip outside these classes is "
+        "only met by the BFS paths and the simulation",
     ])
     return 1 if bad else 0
 
@@ -160,23 +269,48 @@ def replay(path, seed):
 
 
 def selftest(seed):
-    """every deviation of the specification must make TLC find a counterexample of NeverSkipsMatch"""
-    base = open(os.path.join(vlib.SPECS, "cfg", "SparseIndex.exh.quick.cfg")).read()
+    """every unsound deviation of the specification must make TLC find a counterexample of NeverSkipsMatch; the
+    precision-only deviations must pass, and no case of a directed universe may distinguish them"""
+    _tlc_env()
+    cfgdir = os.path.join(vlib.SPECS, "cfg")
+    base = open(os.path.join(cfgdir, "SparseIndex.exh.quick.cfg")).read()
+    base3 = open(os.path.join(cfgdir, "SparseIndex.exh.quick3c.cfg")).read()
     rc = 0
     os.makedirs(vlib.WORK, exist_ok=True)
-    for dev in MUTATION_SEEDS + AS_IMPLEMENTED:
-        cfg = base.replace("Dev = {}", 'Dev = {"%s"}' % dev)
+
+    def one(dev):
+        cfg = (base3 if dev in THREE_KEY_DEVS else base).replace("Dev = {}", 'Dev = {"%s"}' % dev)
         if dev in ("matchphrase_as_equality", "unknown_op_drops_element", "in_is_error"):
             cfg = cfg.replace("SettingNames <- TwoSettings", "SettingNames <- TwoSettings\n  ExhAtoms <- AllAtoms").replace("MaxRows = 3", "MaxRows = 2")
         if dev == "null_as_minus_infinity":
             cfg = cfg.replace("WithNull = FALSE", "WithNull = TRUE").replace("MaxRows = 3", "MaxRows = 2")
-        p = os.path.join(vlib.WORK, f"c20-selftest-{dev}.cfg")
+        p = os.path.join(vlib.WORK, f"c20-selftest-{os.getpid()}-{dev}.cfg")
         open(p, "w").write(cfg)
-        r = vlib.run_tlc("SparseIndexMC", p, timeout=900)
-        ok = r["violated"] in ("NeverSkipsMatch", "MayCoversMatch")
-        print(f"SELFTEST property={PROP} Dev={{{dev}}}: TLC reports {r['violated'] or r['error'] or 'no violation'} "
-              f"after {r['generated']} states -> {'caught' if ok else 'NOT CAUGHT'}")
-        os.remove(p)
-        if not ok:
-            rc = 1
+        try:
+            return dev, vlib.run_tlc("SparseIndexMC", p, workers=8, timeout=1800)
+        finally:
+            os.remove(p)
+
+    with cf.ThreadPoolExecutor(3) as ex:
+        for dev, r in ex.map(one, UNSOUND_DEVS + [d for d in AS_IMPLEMENTED if d not in UNSOUND_DEVS]):
+            ok = r["violated"] in ("NeverSkipsMatch", "MayCoversMatch")
+            print(f"SELFTEST property={PROP} Dev={{{dev}}}: TLC reports {r['violated'] or r['error'] or 'no violation'} "
+                  f"after {r['generated']} states -> {'caught' if ok else 'NOT CAUGHT'}", flush=True)
+            rc |= 0 if ok else 1
+        for dev, r in ex.map(one, PRECISION_DEVS):
+            ok = r["finished"] and not r["violated"] and not r["error"]
+            print(f"SELFTEST property={PROP} Dev={{{dev}}} (loses precision only): TLC reports {r['violated'] or r['error'] or 'no violation'} "
+                  f"after {r['generated']} states -> {'as expected' if ok else 'UNEXPECTED'}", flush=True)
+            rc |= 0 if ok else 1
+    # no case of the two-key directed universe distinguishes a precision-only deviation
+    cfg = open(os.path.join(cfgdir, "SparseIndex.dir.q2.cfg")).read()
+    cfg = cfg.replace("DistDevs <- TwoKeyDevs", "DistDevs <- PrecisionDevs").replace("  Thin <- ThinQ2\n", "").replace("ExportDist", "NoneDistinguishes")
+    p = os.path.join(vlib.WORK, f"c20-selftest-{os.getpid()}-precision.cfg")
+    open(p, "w").write(cfg)
+    r = vlib.run_tlc("SparseIndexMC", p, workers=8, timeout=1800, extra=["-seed", str(seed)])
+    os.remove(p)
+    ok = r["finished"] and not r["violated"] and not r["error"]
+    print(f"SELFTEST property={PROP} precision-only deviations {PRECISION_DEVS}: no distinguishing case among {r['generated']} states "
+          f"-> {'as expected' if ok else 'UNEXPECTED: ' + str(r['violated'] or r['error'])}")
+    rc |= 0 if ok else 1
     return rc
